@@ -254,6 +254,19 @@ import collections
 INFO = collections.Counter()
 
 
+def near_integer_bound_region(cfg, out):
+    """known region: a bound that np.isclose accepts as the integer k but that lies on the INNER side of k (lower = k + d, upper = k - d,
+    0 < d <= isclose tolerance): the integer k itself is outside the domain, and it is what the mechanism returns"""
+    if not isinstance(out, (int, np.integer)):
+        return False
+    for b, inner in ((cfg["lower"], 1), (cfg["upper"], -1)):
+        if isinstance(b, float) and math.isfinite(b) and b != round(b):
+            k = round(b)
+            if int(out) == k and (b - k) * inner > 0 and abs(b - k) <= 1e-8 + 1e-5 * abs(k):
+                return True
+    return False
+
+
 def narrow_int_domain(cfg):
     """Python-int bounds closer together than one double spacing at their magnitude: the reflections of LaplaceFolded (double
     arithmetic) can never land inside"""
@@ -278,6 +291,11 @@ def direct_one(mech, cfg, value, rngspec):
         # a loud refusal of the configuration, not a C12 violation
         INFO["refused_configuration:GeometricFolded:int-bounds-beyond-int64"] += 1
         return None, None
+    if v and mech == "GeometricFolded" and v[0].endswith(":raises") and "Bounds must be integer or half-integer" in v[1]:
+        INFO["refused_configuration:GeometricFolded:not-a-half-integer"] += 1
+        return None, None
+    if v and mech == "GeometricFolded" and v[0].endswith(":out-of-range") and near_integer_bound_region(cfg, out):
+        return ("C12:geometric-folded:near-integer-bound:out-of-range", v[1]), out
     if v and mech == "LaplaceFolded" and v[0] == "C12:fold:hang" and narrow_int_domain(cfg):
         return ("C12:LaplaceFolded:int-domain-without-doubles:hang", v[1]), out
     return v, out
@@ -348,6 +366,10 @@ def _direct_one(mech, cfg, value, rngspec):
             exp = ref_fold(value_, lo_, hi_)
             # integer mechanism with integer (or infinite) bounds: EXACT; bounds given as doubles: double arithmetic
             tol = (8 * spacing(value_, lo_, hi_) if float_typed and big else 0) if mech == "GeometricFolded" else 8 * spacing(value_, lo_, hi_)
+            if cfg.get("dk") == "nearhalf":
+                # the exact reflection about a NEAR-half-integer bound is not an integer: the integer output is its rounding
+                # (the deviation grows with the number of reflections): the output must be the integer nearest to the exact image
+                tol = 0.499
         else:
             exp = clamp(value_, lo_, hi_)
             tol = 0
@@ -989,6 +1011,50 @@ def gen_magnitude(r):
     return mech, cfg, value, {"seed": r.randint(0, 2 ** 31 - 2)}
 
 
+def near_grid(r, k2):
+    """a double within np.isclose tolerance of the half-integer k2/2 (k2 integer): exact, +-1..2 ulps, +-1e-6 / 1e-9 relative-ish
+    offsets, or a computed form such as 0.7 - 0.2"""
+    x = k2 / 2.0
+    m = r.u01()
+    if m < 0.25:
+        return gen.offset_ulps(x, r.choice([-2, -1, 1, 2]))
+    if m < 0.45:
+        return x + r.choice([-1, 1]) * r.choice([1e-6, 4e-6]) * max(abs(x), 0.2)
+    if m < 0.6:
+        return x + r.choice([-1, 1]) * r.choice([1e-9, 4e-9])
+    if m < 0.75:
+        frac = r.choice([0.7 - 0.2, 0.1 + 0.2 + 0.2, 0.3 + 0.2, 1.1 - 0.6, 0.8 - 0.3]) if k2 % 2 else r.choice([0.1 + 0.2 - 0.3, 0.7 + 0.2 + 0.1 - 1.0, 0.0])
+        return (k2 // 2) + frac
+    return x
+
+
+def gen_near_half(r):
+    """GeometricFolded with bounds at NEAR-half-integers / near-integers (accepted through np.isclose) and inputs that are reflected
+    exactly at such a bound; range checked exactly"""
+    k2 = r.randint(-40, 40)
+    w2 = r.choice([1, 2, 3, 4, 7, 20, 21])
+    lo, hi = near_grid(r, k2), near_grid(r, k2 + w2)
+    if r.chance(0.15):
+        lo = -INF
+    elif r.chance(0.15):
+        hi = INF
+    flo = math.ceil(lo) if lo != -INF else math.floor(hi) - 3
+    fhi = math.floor(hi) if hi != INF else flo + 3
+    if flo > fhi:
+        hi = float(flo) + 0.5
+        fhi = flo
+    value = int(r.choice([flo - 1, fhi + 1, flo - 1, fhi + 1, flo, fhi, flo - 2, fhi + 2, flo - r.randint(1, 50), fhi + r.randint(1, 50),
+                          r.randint(flo, fhi)]))
+    degenerate = r.chance(0.6)
+    cfg = {"eps": INF if degenerate and r.chance(0.5) else r.choice([1.0, 0.5, 3.0]), "sens": 0 if degenerate and r.chance(0.6) else 1,
+           "lower": lo, "upper": hi, "dk": "nearhalf"}
+    if degenerate or r.chance(0.5):
+        spec = {"seed": r.randint(0, 2 ** 31 - 2)}
+    else:
+        spec = {"uniforms": [r.choice([0.2, 0.8, 0.3, 0.7, 0.05, 0.95, r.u01()]), r.u01()]}
+    return "GeometricFolded", cfg, value, spec
+
+
 def gen_snap_wide(r):
     w = r.choice([1e300, 1e306, 9e306, 1e307, 4e307, 8e307, 1.7e308 / 2])
     lo, hi = r.choice([(-w, w), (0.0, 2 * w if 2 * w < 1.7e308 else 1.7e308), (-w, 0.0)])
@@ -1019,6 +1085,11 @@ def s_bounded(ctx):
         cases.append(gen_magnitude(rm))
     for _ in range(ctx.budget(1200, 50000) // 20):
         cases.append(gen_snap_wide(rm))
+    for _ in range(ctx.budget(1200, 50000) // 2):
+        cases.append(gen_near_half(rm))
+    cases += [("GeometricFolded", {"eps": 1.0, "sens": 0, "lower": 0.7 - 0.2, "upper": 10.5, "dk": "nearhalf"}, 0, {"seed": 0}),
+              ("GeometricFolded", {"eps": INF, "sens": 1, "lower": -10.5, "upper": -(0.7 - 0.2), "dk": "nearhalf"}, 0, {"seed": 0}),
+              ("GeometricFolded", {"eps": 1.0, "sens": 1, "lower": 0.7 - 0.2, "upper": 10.5, "dk": "nearhalf"}, 1, {"uniforms": [0.2, 0.3]})]
     rl = ctx.fork("landing")
     for _ in range(n // 2):
         c = gen_landing(rl)
@@ -1531,12 +1602,21 @@ WHAT.update({
         "np.float64(0)` rounds) and LaplaceFolded / Snapping: a double-valued mechanism with a Python-int bound that is not exactly a "
         "double can miss the domain by one rounding of that bound (never by more than one spacing)",
 })
+WHAT.update({
+    "C12:geometric-folded:near-integer-bound:out-of-range":
+        "GeometricFolded(epsilon=inf, sensitivity=1, lower=2.000002, upper=3.0, random_state=0).randomise(24) returns 2 < lower (and "
+        "upper=12.999999999999998, lower=12.0: randomise(12) can return 13 > upper): _check_bounds accepts through np.isclose a bound "
+        "within 1e-8 + 1e-5|k| of the integer k; when it lies on the inner side of k (lower = k + d or upper = k - d) the folded and "
+        "rounded output is k itself, which is outside the declared domain",
+})
 W_DIRECT = {
     "C12:Snapping:huge-finite-width:nan":
         ("Snapping", {"eps": 1.0, "sens": 1.0, "lower": -8e307, "upper": 8e307, "dk": "astronomic"}, 0.5, {"seed": 0}),
     "C12:LaplaceFolded:int-domain-without-doubles:hang":
         ("LaplaceFolded", {"witness": True, "eps": 5.0, "delta": 0.0, "sens": 1.0, "lower": 2 ** 63, "upper": 2 ** 63 + 1001, "dk": "magnitude"},
          2 ** 53 + 3, {"seed": 0}),
+    "C12:geometric-folded:near-integer-bound:out-of-range":
+        ("GeometricFolded", {"eps": INF, "sens": 1, "lower": 2.000002, "upper": 3.0, "dk": "nearhalf"}, 24, {"seed": 0}),
     "C12:laplace-family:int-bound-not-a-double:off-by-rounding":
         ("LaplaceTruncated", {"eps": 1.0, "delta": 0.0, "sens": 0.0, "lower": 2 ** 53, "upper": 2 ** 54 - 1, "dk": "magnitude"}, float(2 ** 54), {"seed": 0}),
 }
